@@ -12,8 +12,10 @@
   * `textHooks_lineOK`, `frontEnd_items_from_lines`, `assembleText_error_line` — the same through the
     text front end: the reported `Line` is one `read_lines` produced;
   * `readLines_numbered` — a `Line` `read_lines` produces (or reports) carries the path of the file it
-    was read from (the main path, or the path the include search returned) and its 1-based index
-    among that file's `splitlines()`;
+    was read from (the main path, or the path the include search returned), its 1-based index
+    among that file's `splitlines()`, and THAT line's text as contents (`LineOfFile`; the raw text
+    exactly for every error `read_lines` raises itself, `RawLineOfFile`; an include_bytes line is
+    carried in the rewritten form asm.py gives it, `ContentsOf`);
   * one theorem per listed fault class, for the simplest shape (`*_reported`).
 -/
 import BB.Lemmas.ErrAssemble
@@ -221,22 +223,63 @@ theorem assembleText_error_line (fs : FS) (cwd : String) (includeDirs : List Str
       obtain ⟨it, hit, rfl⟩ := this
       exact p1 items hp it hit
 
-/-- **Lines are numbered per file and 1-based, at every include depth**: a `Line` that `read_lines`
-    produces, and the `Line` of an AssemblerError it raises, has `file` = the path the text was read
-    from (the path given, or the path the include search returned for an included file, which is a
-    file of the filesystem) and `number` = 1 + the index of the line in that text's `splitlines()`. -/
+/-- **Lines are numbered per file, 1-based, and carry their own text, at every include depth**: a
+    `Line` that `read_lines` produces has `file` = the path the text was read from (the path given,
+    or the path the include search returned for an included file, which is a file of the
+    filesystem), `number` = 1 + the index of a line `raw` of that text's `splitlines()`, and
+    `contents` = the text of THAT line (`LineOfFile`: `(splitLines src)[l.number - 1] = raw` and
+    `l.contents = raw`, or — `raw` being an include_bytes line — `<its keyword> <path of a readable
+    file> <that file's size>`, as asm.py rewrites it).  The `Line` of an AssemblerError that
+    `read_lines` raises itself (missing include file, malformed include line) has exactly the raw
+    text: `(splitLines src)[ln.number - 1] = ln.contents` (`RawLineOfFile`). -/
 theorem readLines_numbered (fs : FS) (dirs : List String) (fuel : Nat) (path base : String) (src : List Char) :
-    (∀ ls, readLinesAux fs dirs fuel path base src = .ok ls → ∀ l ∈ ls, LineOfFile path src l ∨ FromFS fs l) ∧
-    (∀ ln, readLinesAux fs dirs fuel path base src = .error (.asm ln) → LineOfFile path src ln ∨ FromFS fs ln) :=
+    (∀ ls, readLinesAux fs dirs fuel path base src = .ok ls → ∀ l ∈ ls, LineOfFile fs path src l ∨ FromFS fs l) ∧
+    (∀ ln, readLinesAux fs dirs fuel path base src = .error (.asm ln) → RawLineOfFile path src ln ∨ RawFromFS fs ln) :=
   readLinesAux_numbered fs dirs fuel path base src
 
-/-- the two together, for a program given as a path: the reported line is a correctly numbered line
-    of a file of the tree -/
+/-- what `LineOfFile` pins down: the line `l.number` of the text exists, and unless it is an
+    include_bytes line the contents are its text, character for character -/
+theorem lineOfFile_contents {fs : FS} {path : String} {src : List Char} {l : Line}
+    (h : LineOfFile fs path src l) :
+    l.file = path ∧ 1 ≤ l.number ∧ ∃ raw, (splitLines src)[l.number - 1]? = some raw ∧
+      (("include_bytes ".toList).isPrefixOf (lowerL raw) = false → l.contents = String.ofList raw) := by
+  obtain ⟨h1, raw, h2, h3, h4⟩ := h
+  refine ⟨h1, h2, raw, h3, ?_⟩
+  intro hn
+  rcases h4 with h4 | ⟨_, _, _, _, hib, _⟩
+  · exact h4
+  · rw [hn] at hib; cases hib
+
+/-- a reader that numbered every line 1, or attached another line's text, does not satisfy it
+    (the review's two witnesses against the old definition) -/
+example : ¬ LineOfFile ⟨[], []⟩ "/f" "a\nb\n".toList ⟨"/f", 1, "b"⟩ := by
+  intro h
+  obtain ⟨_, _, raw, h1, h2⟩ := lineOfFile_contents h
+  have : raw = "a".toList := by
+    have e : (splitLines "a\nb\n".toList)[(1 : Nat) - 1]? = some "a".toList := by decide
+    exact Option.some.inj (h1.symm.trans e)
+  subst this
+  exact absurd (h2 (by decide)) (by decide)
+
+example : ¬ LineOfFile ⟨[], []⟩ "/f" "a\nb\n".toList ⟨"/f", 2, "completely different"⟩ := by
+  intro h
+  obtain ⟨_, _, raw, h1, h2⟩ := lineOfFile_contents h
+  have : raw = "b".toList := by
+    have e : (splitLines "a\nb\n".toList)[(2 : Nat) - 1]? = some "b".toList := by decide
+    exact Option.some.inj (h1.symm.trans e)
+  subst this
+  exact absurd (h2 (by decide)) (by decide)
+
+/-- the two together, for a program given as a path: **the reported line is a line of a file of the
+    tree, with that file's path, its 1-based number in that file, and its text** (`FromFS`: some
+    readable ASCII file `p` of `fs` with text `src` has `LineOfFile fs p src ln`).  Errors come out of
+    `read_lines` (raw text) or out of a later pass, which reports the `Line` of an item, i.e. one
+    `read_lines` produced. -/
 theorem assembleText_path_error_numbered (fs : FS) (cwd : String) (includeDirs : List String)
     (compress : Bool) (p : String) (ln : Line)
     (h : assembleText fs cwd includeDirs compress (.path p) = .error (.asm ln)) : FromFS fs ln := by
   have key : ∀ r : Except Err (List Line), readInput fs cwd includeDirs (.path p) = r →
-      ReadOK r (FromFS fs) := by
+      ReadOK r (FromFS fs) (RawFromFS fs) := by
     intro r hr
     unfold readInput at hr
     split at hr
@@ -251,14 +294,18 @@ theorem assembleText_path_error_numbered (fs : FS) (cwd : String) (includeDirs :
           · split at hr
             · subst hr; exact ReadOK.unsupported
             · subst hr
-              refine (readLinesAux_numbered fs includeDirs (fs.files.length + 2) p (baseOf p) _).mono ?_
-              intro l hl
-              rcases hl with hq | hq
-              · exact ⟨p, _, _, by assumption, by assumption, hq⟩
-              · exact hq
+              refine (readLinesAux_numbered fs includeDirs (fs.files.length + 2) p (baseOf p) _).mono ?_ ?_
+              · intro l hl
+                rcases hl with hq | hq
+                · exact ⟨p, _, _, by assumption, by assumption, hq⟩
+                · exact hq
+              · intro l hl
+                rcases hl with hq | hq
+                · exact ⟨p, _, _, by assumption, by assumption, hq⟩
+                · exact hq
   obtain ⟨k1, k2⟩ := key _ rfl
   rcases assembleText_error_line fs cwd includeDirs compress (.path p) ln h with hq | ⟨lines, hq, hm⟩
-  · exact k2 ln hq
+  · exact (k2 ln hq).fromFS
   · exact k1 lines hq ln hm
 
 /-! ## one theorem per fault class (simplest shape) -/
